@@ -58,6 +58,12 @@ Proof.
   - apply IH; [exact Ha' | exact Hb |]. intros y Hy. apply Hd. right; exact Hy.
 Qed.
 
+Lemma firstn_In' {A} (n : nat) : forall (l : list A) x, In x (firstn n l) -> In x l.
+Proof.
+  induction n as [|n IH]; intros [|a l] x H; cbn [firstn] in H; try contradiction.
+  destruct H as [->|H]; [left; reflexivity | right; apply IH, H].
+Qed.
+
 (* ---------------------------------------------------------------- entries of one appended batch *)
 
 Definition es (e : entry) : Z * Z := (en_epoch e, en_seq e).
@@ -183,7 +189,7 @@ Proof.
   constructor; cbn [ps_log ps_epoch ps_last ps_cache].
   - intros e He. apply in_app_or in He as [He|He]; [apply H1, He|].
     apply Hcl. unfold batch_claims. rewrite Hk.
-    destruct (Hnew e He) as [Ee _]. rewrite <- Ee at 2. rewrite Ee. apply entries_claims, He.
+    destruct (Hnew e He) as [Ee _]. rewrite Ee. apply entries_claims, He.
   - rewrite map_app. apply NoDup_app_intro; [exact H2 | apply entries_nodup |].
     intros x Hx Hy. apply in_map_iff in Hx as [e1 [<- He1]]. apply in_map_iff in Hy as [e2 [E He2]].
     unfold es in E. injection E as E1 E2. destruct (Hnew e2 He2) as [Ee2 Hs2].
@@ -199,7 +205,7 @@ Proof.
       * assert (en_seq e <= ps_last p) by (apply H4; [exact He | lia]).
         unfold ba_last, ba_count. lia.
     + destruct (Hnew e He). lia.
-  - intros f l base Hin x Hx. apply firstn_In in Hin. destruct Hin as [Hin|Hin].
+  - intros f l base Hin x Hx. apply firstn_In' in Hin. destruct Hin as [Hin|Hin].
     + injection Hin as <- <- _.
       destruct (entries_cover (ba_epoch b) (ba_ids b) (ba_first b) x) as [e [He [E1 E2]]].
       { unfold ba_last, ba_count in Hx. lia. }
@@ -233,4 +239,168 @@ Proof.
     pose proof (H1 e He) as Hc1. assert (Hc2 : In (i, (k, ba_epoch b, x)) cl).
     { apply Hcl. unfold batch_claims. rewrite Hk. exact Hx. }
     rewrite E1, E2, Ee in Hc1. apply (Hc _ _ _ _ Hc1 Hc2). reflexivity.
+Qed.
+
+(* ---------------------------------------------------------------- the whole broker *)
+
+Definition LInv (br : broker) (cl : list (Z * stamp)) : Prop :=
+  NoDup (map fst br) /\ Forall (fun kp => InvP (fst kp) (snd kp) cl) br.
+
+Lemma LInv_nil cl : LInv [] cl. Proof. split; constructor. Qed.
+
+Lemma LInv_get k br cl : LInv br cl -> InvP k (br_get k br) cl.
+Proof.
+  intros [_ HF]. induction br as [|[k' p] r IH]; cbn [br_get]; [apply InvP_init|].
+  inversion HF as [|? ? Hh Ht]; subst. destruct (tpk_eqb k k') eqn:E.
+  - apply tpk_eqb_eq in E. subst k'. exact Hh.
+  - apply IH, Ht.
+Qed.
+
+Lemma br_set_keys k p br : map fst (br_set k p br) = if existsb (tpk_eqb k) (map fst br) then map fst br else map fst br ++ [k].
+Proof.
+  induction br as [|[k' p'] r IH]; cbn [br_set map fst existsb app]; [reflexivity|].
+  destruct (tpk_eqb k k') eqn:E; cbn [map fst orb]; [reflexivity|].
+  rewrite IH. destruct (existsb (tpk_eqb k) (map fst r)); reflexivity.
+Qed.
+
+Lemma LInv_set k p br cl : LInv br cl -> InvP k p cl -> LInv (br_set k p br) cl.
+Proof.
+  intros [Hn HF] Hp. split.
+  - rewrite br_set_keys. destruct (existsb (tpk_eqb k) (map fst br)) eqn:E; [exact Hn|].
+    apply NoDup_app_intro; [exact Hn | constructor; [intros []|constructor] |].
+    intros x Hx [<-|[]].
+    assert (existsb (tpk_eqb k) (map fst br) = true); [|congruence].
+    apply existsb_exists. exists k. split; [exact Hx | apply tpk_eqb_refl].
+  - clear Hn. induction br as [|[k' p'] r IH]; cbn [br_set].
+    + constructor; [exact Hp | constructor].
+    + inversion HF as [|? ? Hh Ht]; subst. destruct (tpk_eqb k k') eqn:E.
+      * apply tpk_eqb_eq in E. subst k'. constructor; assumption.
+      * constructor; [exact Hh | apply IH, Ht].
+Qed.
+
+Lemma LInv_step br cl l : LInv br cl -> (applied l = true -> incl (batch_claims (rl_batch l)) cl) ->
+  LInv (replay_step br l) cl.
+Proof.
+  intros H Hc. unfold replay_step. destruct (applied l); [|exact H].
+  apply LInv_set; [exact H|]. apply InvP_apply; [apply LInv_get, H | reflexivity | apply Hc; reflexivity].
+Qed.
+
+Lemma in_all_log_ids i br : In i (all_log_ids br) <-> exists k p, In (k, p) br /\ In i (log_ids p).
+Proof.
+  induction br as [|[k p] r IH]; cbn [all_log_ids].
+  - split; [intros [] | intros [? [? [[] _]]]].
+  - rewrite in_app_iff, IH. split.
+    + intros [H|[k' [p' [H1 H2]]]]; [exists k, p; split; [left; reflexivity | exact H] | exists k', p'; split; [right; exact H1 | exact H2]].
+    + intros [k' [p' [[E|H1] H2]]]; [injection E as <- <-; left; exact H2 | right; exists k', p'; auto].
+Qed.
+
+Lemma in_all_set i k p br : In i (log_ids p) -> In i (all_log_ids (br_set k p br)).
+Proof.
+  intros H. induction br as [|[k' p'] r IH]; cbn [br_set all_log_ids].
+  - rewrite app_nil_r. exact H.
+  - destruct (tpk_eqb k k'); cbn [all_log_ids]; apply in_or_app; [left; exact H | right; exact IH].
+Qed.
+
+Lemma mono_set i k p br : (forall e, In e (ps_log (br_get k br)) -> In e (ps_log p)) ->
+  In i (all_log_ids br) -> In i (all_log_ids (br_set k p br)).
+Proof.
+  induction br as [|[k' p'] r IH]; cbn [br_set br_get all_log_ids]; intros Hsub H; [contradiction|].
+  destruct (tpk_eqb k k') eqn:E; cbn [all_log_ids]; apply in_app_or in H as [H|H]; apply in_or_app.
+  - left. unfold log_ids in *. apply in_map_iff in H as [e [<- He]]. apply in_map_iff. exists e. split; [reflexivity | apply Hsub, He].
+  - right; exact H.
+  - left; exact H.
+  - right. apply IH; [exact Hsub | exact H].
+Qed.
+
+Lemma mono_step i br l : In i (all_log_ids br) -> In i (all_log_ids (replay_step br l)).
+Proof.
+  intros H. unfold replay_step. destruct (applied l); [|exact H].
+  apply mono_set; [|exact H]. intros e He. apply apply_batch_log_incl, He.
+Qed.
+
+Lemma mono_fold i : forall h br, In i (all_log_ids br) -> In i (all_log_ids (fold_left replay_step h br)).
+Proof. induction h as [|l r IH]; intros br H; cbn [fold_left]; [exact H | apply IH, mono_step, H]. Qed.
+
+Lemma LInv_fold cl : forall h br, LInv br cl ->
+  (forall l, In l h -> applied l = true -> incl (batch_claims (rl_batch l)) cl) -> LInv (fold_left replay_step h br) cl.
+Proof.
+  induction h as [|l r IH]; intros br H Hc; cbn [fold_left]; [exact H|].
+  apply IH; [apply LInv_step; [exact H | apply Hc; left; reflexivity] | intros l' Hl'; apply Hc; right; exact Hl'].
+Qed.
+
+Lemma hist_claims_incl : forall h l, In l h -> applied l = true -> incl (batch_claims (rl_batch l)) (hist_claims h).
+Proof.
+  induction h as [|x r IH]; intros l Hl Ha; [contradiction|]. destruct Hl as [->|H]; cbn [hist_claims].
+  - rewrite Ha. apply incl_appl, incl_refl.
+  - apply incl_appr, IH; assumption.
+Qed.
+
+(* no id twice, from the invariant and consistency *)
+Lemma LInv_nodup cl : consistent cl -> forall br, LInv br cl -> NoDup (all_log_ids br).
+Proof.
+  intros Hc. induction br as [|[k p] r IH]; intros [Hn HF]; cbn [all_log_ids]; [constructor|].
+  inversion HF as [|? ? Hh Ht]; subst. cbn [map fst] in Hn. inversion Hn as [|? ? Hk Hn']; subst.
+  cbn [fst snd] in Hh. apply NoDup_app_intro.
+  - unfold log_ids. apply NoDup_map_coarser with (g := es); [apply (ip_nodup _ _ _ Hh)|].
+    intros x y Hx Hy E. pose proof (ip_claims _ _ _ Hh x Hx) as C1. pose proof (ip_claims _ _ _ Hh y Hy) as C2.
+    rewrite E in C1. destruct (Hc _ _ _ _ C1 C2) as [Hs _]. specialize (Hs eq_refl). injection Hs as E1 E2.
+    unfold es. congruence.
+  - apply IH. split; assumption.
+  - intros i Hi Hj. apply in_all_log_ids in Hj as [k' [p' [Hin Hj]]].
+    unfold log_ids in Hi, Hj. apply in_map_iff in Hi as [e [<- He]]. apply in_map_iff in Hj as [e' [E He']].
+    pose proof (ip_claims _ _ _ Hh e He) as C1.
+    rewrite Forall_forall in Ht. pose proof (ip_claims _ _ _ (Ht _ Hin) e' He') as C2. cbn [fst snd] in C2.
+    rewrite E in C2. destruct (Hc _ _ _ _ C1 C2) as [Hs _]. specialize (Hs eq_refl). injection Hs as Ek _ _.
+    apply Hk. rewrite Ek. apply in_map_iff. exists (k', p'). split; [reflexivity | exact Hin].
+Qed.
+
+Lemma count_id_nodup i l : NoDup l -> In i l -> count_id i l = 1%nat.
+Proof.
+  unfold count_id. induction l as [|x r IH]; intros Hn Hi; [contradiction|].
+  inversion Hn as [|? ? Hx Hn']; subst. cbn [filter]. destruct Hi as [->|Hi].
+  - rewrite Z.eqb_refl. cbn [length]. f_equal.
+    assert (filter (Z.eqb i) r = []) as ->; [|reflexivity].
+    clear -Hx. induction r as [|y r IH]; [reflexivity|]. cbn [filter].
+    destruct (i =? y) eqn:E; [apply Z.eqb_eq in E; subst; exfalso; apply Hx; left; reflexivity|].
+    apply IH. intros H; apply Hx; right; exact H.
+  - destruct (i =? x) eqn:E; [apply Z.eqb_eq in E; subst; contradiction | apply IH; assumption].
+Qed.
+Lemma count_id_le_nodup i l : NoDup l -> (count_id i l <= 1)%nat.
+Proof.
+  intros Hn. destruct (in_dec Z.eq_dec i l) as [Hi|Hi]; [rewrite count_id_nodup; auto|].
+  unfold count_id. assert (filter (Z.eqb i) l = []) as ->; [|cbn; lia].
+  induction l as [|y r IH]; [reflexivity|]. cbn [filter].
+  destruct (i =? y) eqn:E; [apply Z.eqb_eq in E; subst; exfalso; apply Hi; left; reflexivity|].
+  inversion Hn; subst. apply IH; [assumption | intros H; apply Hi; right; exact H].
+Qed.
+
+Lemma accepted_fold cl : consistent cl -> forall h br, LInv br cl ->
+  (forall l, In l h -> applied l = true -> incl (batch_claims (rl_batch l)) cl) -> verdicts_ok br h ->
+  forall l i, In l h -> accepted_entry l = true -> In i (ba_ids (rl_batch l)) ->
+  In i (all_log_ids (fold_left replay_step h br)).
+Proof.
+  intros Hc. induction h as [|x r IH]; intros br HI Hcl Hv l i Hl Ha Hi; [contradiction|].
+  cbn [fold_left]. cbn [verdicts_ok] in Hv. destruct Hv as [Hv1 Hv2]. destruct Hl as [->|Hl].
+  - apply mono_fold. unfold accepted_entry in Ha. unfold replay_step, applied.
+    destruct (rl_verdict l) as [v|] eqn:Ev; [|discriminate]. subst v.
+    apply in_all_set. eapply accepted_in_log; try eassumption; [apply LInv_get, HI | reflexivity |].
+    apply Hcl; [left; reflexivity | unfold applied; rewrite Ev; reflexivity].
+  - eapply IH; try eassumption.
+    + apply LInv_step; [exact HI | apply Hcl; left; reflexivity].
+    + intros l' Hl'. apply Hcl. right; exact Hl'.
+Qed.
+
+(* ---------------------------------------------------------------- the broker theorems *)
+
+Theorem broker_no_duplicate h : consistent (hist_claims h) -> NoDup (all_log_ids (replay h)).
+Proof.
+  intros Hc. apply (LInv_nodup _ Hc). apply LInv_fold; [apply LInv_nil | apply hist_claims_incl].
+Qed.
+
+Theorem broker_accepted_once h : consistent (hist_claims h) -> verdicts_ok [] h ->
+  forall l i, In l h -> accepted_entry l = true -> In i (ba_ids (rl_batch l)) ->
+  count_id i (all_log_ids (replay h)) = 1%nat.
+Proof.
+  intros Hc Hv l i Hl Ha Hi. apply count_id_nodup; [apply broker_no_duplicate, Hc|].
+  eapply accepted_fold; try eassumption; [apply LInv_nil | apply hist_claims_incl].
 Qed.
